@@ -494,6 +494,47 @@ def inst_balance(kind):
                     api_replay=api)
 
 
+def inst_balance_unknown_axis():
+    """x.rechunk({0: c}, balance=True) where axis 1 has unknown (nan) chunk sizes and is left alone: the call goes through
+    (unknown sizes along an unchanged axis are part of the property), axis 1 keeps its blocks, axis 0 is what the same call
+    gives on a fully known array"""
+    def body(E):
+        import math
+
+        import dask.array as legacy
+        import dask_array.io._from_array as FAm
+        from symx.sarr import leaf
+
+        from . import catalog
+
+        w = catalog.W(E)
+        nan = float("nan")
+        chunks = ((2, 2, 2, 2, 2), (nan, nan))
+        node = w.space.make(FAm.FromArray, leaf("X", (10, 1)), chunks, _symx_attrs=dict(_meta=np.empty((0, 0)), chunks=chunks, _name="x"))
+        out = node.rechunk({0: 4}, None, None, True, None)
+        got = out.chunks
+        want0 = legacy.empty((10, 3), chunks=((2, 2, 2, 2, 2), (2, 1))).rechunk({0: 4}, balance=True).chunks[0]
+        E.ensure("changed-axis-is-balanced", tuple(got[0]) == tuple(want0))
+        E.ensure("unknown-axis-keeps-its-blocks", len(got[1]) == 2 and all(math.isnan(v) for v in got[1]))
+
+    def api(values):
+        import warnings
+
+        import dask_array as da
+
+        with warnings.catch_warnings():
+            warnings.simplefilter("ignore")
+            x = da.from_array(np.arange(40).reshape(10, 4), chunks=(2, 2))
+            y = x[:, da.from_array(np.array([True, False, True, True]), chunks=2)]
+            try:
+                c = y.rechunk({0: 4}, balance=True).chunks
+            except TypeError as ex:
+                return dict(ok=False, detail=f"x[:, lazy_mask].rechunk({{0: 4}}, balance=True) raised TypeError: {ex}")
+            return dict(ok=c[0] == (5, 5) and len(c[1]) == 2, detail=f"chunks {c}")
+
+    return Instance("rechunk_balance[unknown sizes along the unchanged axis]", body, {}, unit="Rechunk.chunks + _balance_chunksizes", api_replay=api)
+
+
 def inst_rechunk_spec(kind):
     """x.rechunk(spec, block_size_limit=L) advertises exactly what normalising the spec against x gives
     (the real ArrayExpr.rechunk -> Rechunk.chunks on a symbolic node; oracle: the real normalize_chunks called
@@ -613,6 +654,7 @@ def instances(tier):
         out.append(inst_through_expand(nd, axes))
     for mo, mn in ((1, 2), (2, 2), (3, 1)):
         out.append(inst_validate(mo, mn))
+    out.append(inst_balance_unknown_axis())
     for k in ("plain", "elemwise", "transpose", "expand_dims", "rechunk-rechunk"):
         out.append(inst_balance(k))
     for k in ("auto1", "int", "minus1", "tuple", "flat1d", "dict-none") + (() if q else ("dict-auto",)):
